@@ -325,7 +325,41 @@ def g_reserved_formats(R, tier):
             repr(fixed), backend="exhaustive-finite")
 
 
-GROUPS = {"hygiene": g_hygiene, "reserved_formats": g_reserved_formats, "fresh_names": c10.g_fresh_names, "canary": c13.g_canary}
+def g_ol_name_call_sites(R, tier):
+    """precondition of the freshness contract of ol_name(fmt): fmt has a slot for the unique
+    id (a constant format gives the same name on every call).  Every call site in the package
+    passes one of the reserved format constants that has exactly one slot; and the real
+    ol_name returns different names for two calls with each such format."""
+    import os
+    ri = extract.repo_module("oneliner.reserved_identifiers")
+    fmts = {k: v for k, v in vars(ri).items() if k.startswith("OL_") and isinstance(v, str)}
+    pkg = os.path.join(extract.REPO, "oneliner")
+    sites = []
+    for root, _, files in os.walk(pkg):
+        for f in sorted(files):
+            if not f.endswith(".py"):
+                continue
+            tree = ast.parse(open(os.path.join(root, f), encoding="utf8").read())
+            for n in ast.walk(tree):
+                if isinstance(n, ast.Call) and ((isinstance(n.func, ast.Name) and n.func.id == "ol_name") or (isinstance(n.func, ast.Attribute) and n.func.attr == "ol_name")):
+                    a = n.args[0] if n.args else None
+                    nm = a.id if isinstance(a, ast.Name) else (a.attr if isinstance(a, ast.Attribute) else None)
+                    sites.append((f, n.lineno, nm))
+    R.check("reserved_identifiers.ol_name/call-sites-found", len(sites) >= 10, f"{len(sites)} call sites")
+    used = sorted({nm for _, _, nm in sites if nm})
+    dyn = [(f, ln) for f, ln, nm in sites if nm is None or nm not in fmts]
+    R.check("reserved_identifiers.ol_name/every-call-site-passes-a-reserved-format-constant", not dyn, f"call sites with another argument: {dyn}")
+    for nm in used:
+        if nm not in fmts:
+            continue
+        v = fmts[nm]
+        ok = v.count("{}") == 1 and v.format("A") != v.format("B")
+        R.check(f"reserved_identifiers.{nm}/format-passed-to-ol_name-has-a-slot-for-the-unique-id", ok, repr(v), backend="exhaustive-finite", replay=dict(kind="temps"))
+        a, b = ri.ol_name(v), ri.ol_name(v)
+        R.check(f"reserved_identifiers.ol_name[{nm}]/two-calls-give-two-names", a != b and a.startswith("__ol_") and b.startswith("__ol_"), f"{a!r} {b!r}", backend="ground", replay=dict(kind="temps"))
+
+
+GROUPS = {"ol_name_call_sites": g_ol_name_call_sites, "hygiene": g_hygiene, "reserved_formats": g_reserved_formats, "fresh_names": c10.g_fresh_names, "canary": c13.g_canary}
 NO_FRAME_GROUPS = ("hygiene",)
 
 CAPTURE_PROGRAMS = {
@@ -356,6 +390,7 @@ def replay_capture(rp):
 
 
 TEMP_PROGRAMS = [
+    "def a():\n    x = 1\n    def b():\n        y = 'b'\n        def c():\n            nonlocal x\n            x = 2\n            return x, y\n        return c()\n    return b(), x\nr = a()\n",
     "(k, v), it = (1, 2), 3\n_, __ = self = [10, 20]\na, (b, (c, d)), e = 1, (2, (3, 4)), 5\nr = (k, v, it, _, __, self, a, b, c, d, e)\n",
     "def outer(c):\n    c.tags = getattr(c, 'tags', ()) + ('outer',)\n    return c\ndef inner(c):\n    c.tags = getattr(c, 'tags', ()) + ('inner',)\n    return c\n"
     "def third(c):\n    c.tags = getattr(c, 'tags', ()) + ('third',)\n    return c\n@outer\n@inner\n@third\nclass K:\n    pass\nr = K.tags\n",
